@@ -83,7 +83,7 @@ def _pool_rows(draw, flds, max_rows, pool_size=3):
 
 @st.composite
 def filter_case(draw):
-    flds = draw(gen.fields(1, 4, names=gen.FIELD_NAMES, types=['string', 'integer', 'number', 'boolean', 'date']))
+    flds = draw(gen.fields(1, 4, names=gen.FIELD_NAMES, types=['string', 'integer', 'number', 'boolean', 'date', 'array']))
     rows, pools = draw(_pool_rows(flds, 12))
     other = draw(st.one_of(st.none(), gen.resource('res2', max_rows=4)))
     mode = draw(st.sampled_from(['callable', 'old', 'old']))
